@@ -331,35 +331,68 @@ func tolFor(n *gen.Node) float64 {
 }
 
 // collisionWitness re-checks known finding field-identity-collision on a fixed tiny case: two
-// table fields with the same printed expression; a grouped query of one of them is sub-merged
-// from both columns and reads double.
+// table fields whose printed expressions are alike although their data differ (AVG(b) and
+// WAVG(b, a): the weight is not printed). A grouped query of the second is sub-merged from the
+// column(s) matching its printed expression, not from its own: points (b=2,a=1), (b=6,a=3) have
+// AVG 4 and WAVG 5, and `SELECT f1` must read 5. (Two fields with the very same expression used
+// to read double; repaired by /repo 22d56a6 and checked by identicalFieldsWitness below.)
 func collisionWitness(ctx *hk.RunCtx) {
+	fld := func(n string) *gen.Node { return &gen.Node{Kind: "field", Name: n} }
 	s := &dbk.Schema{Table: "t", Stream: "inbound", WhereC: -1, Res: time.Second, Retention: 100 * time.Second,
 		Fields: []dbk.FieldDef{
-			{Name: "f0", Node: &gen.Node{Kind: "agg", Name: "COUNT", Kids: []*gen.Node{{Kind: "field", Name: "c"}}}},
-			{Name: "f1", Node: &gen.Node{Kind: "agg", Name: "COUNT", Kids: []*gen.Node{{Kind: "field", Name: "c"}}}}}}
+			{Name: "f0", Node: &gen.Node{Kind: "avg", Kids: []*gen.Node{fld("b"), {Kind: "const", Const: 1}}}},
+			{Name: "f1", Node: &gen.Node{Kind: "avg", Kids: []*gen.Node{fld("b"), fld("a")}}}}}
+	v, ok := witnessValue(s, []map[string]interface{}{{"b": 2.0, "a": 1.0}, {"b": 6.0, "a": 3.0}}, "SELECT f1 FROM t GROUP BY *")
+	ctx.Res.Hit("collision-witness-run")
+	if ok && math.Abs(v-5) > 1e-9 {
+		ctx.Res.KnownFinding("field-identity-collision")
+	}
+}
+
+// identicalFieldsWitness: two table fields with the same expression; a grouped query of one of
+// them must read that field's value (1), not the merge of both columns (2; fixed in 22d56a6).
+func identicalFieldsWitness(ctx *hk.RunCtx) {
+	cnt := func() *gen.Node {
+		return &gen.Node{Kind: "agg", Name: "COUNT", Kids: []*gen.Node{{Kind: "field", Name: "c"}}}
+	}
+	s := &dbk.Schema{Table: "t", Stream: "inbound", WhereC: -1, Res: time.Second, Retention: 100 * time.Second,
+		Fields: []dbk.FieldDef{{Name: "f0", Node: cnt()}, {Name: "f1", Node: cnt()}}}
+	sql := "SELECT f1 FROM t GROUP BY *"
+	v, ok := witnessValue(s, []map[string]interface{}{{"c": 1.0}}, sql)
+	ctx.Res.Hit("identical-fields-witness-run")
+	if ok && v != 1 {
+		ctx.Res.Disagree(hk.Disagreement{Kind: "property", Prop: "C06", PropertyFails: true, Case: "identical-fields-witness",
+			Impl: fmt.Sprint(v), Model: "1",
+			Detail: "table `COUNT(c) AS f0, COUNT(c) AS f1`, one point c=1: `" + sql + "` must read 1 (each output merged once from one input)"})
+	}
+}
+
+func witnessValue(s *dbk.Schema, vals []map[string]interface{}, sql string) (float64, bool) {
 	db, err := dbk.Open(dbk.Opts{})
 	if err != nil {
-		return
+		return 0, false
 	}
 	defer db.CloseAndRemove()
 	if db.CreateTable(s) != nil {
-		return
+		return 0, false
 	}
-	db.Insert(s.Stream, dbk.Point{TS: dbk.Base, Dims: map[string]interface{}{"d": "x"}, Vals: map[string]interface{}{"c": 1.0}})
+	for _, v := range vals {
+		db.Insert(s.Stream, dbk.Point{TS: dbk.Base, Dims: map[string]interface{}{"d": "x"}, Vals: v})
+	}
 	if !db.Quiesce(10 * time.Second) {
-		return
+		return 0, false
 	}
-	_, rows, err := db.Query("SELECT f1 FROM t GROUP BY *", true, 0)
-	if err == nil && len(rows) == 1 && len(rows[0].Values) == 1 && rows[0].Values[0] == 2 {
-		ctx.Res.KnownFinding("field-identity-collision")
+	_, rows, err := db.Query(sql, true, 0)
+	if err != nil || len(rows) != 1 || len(rows[0].Values) != 1 {
+		return 0, false
 	}
-	ctx.Res.Hit("collision-witness-run")
+	return rows[0].Values[0], true
 }
 
 func (Engine) Run(ctx *hk.RunCtx) error {
 	if ctx.From == 0 && ctx.Replay == "" {
 		collisionWitness(ctx)
+		identicalFieldsWitness(ctx)
 	}
 	ctx.Res.Rule = "generated (schema, dataset with flushes, 3-6 SQL queries); distinct by canonical model request; non-trivial = dataset with >= 3 accepted points and at least one query that regroups, bounds the time range, filters or has HAVING"
 	for i := 0; i < ctx.N; i++ {
